@@ -495,11 +495,33 @@ struct AScript {
     polls: u64,
     seek_to: Option<u64>,
     data_len: u64,
+    /// flush and shutdown are different operations with different outcomes: counted per instance
+    flushes: std::sync::Arc<std::sync::atomic::AtomicU64>,
+    shutdowns: std::sync::Arc<std::sync::atomic::AtomicU64>,
+    flush_err: bool,
+    shutdown_err: bool,
 }
 
 impl AScript {
+    /// an identical sink with counters of its own (a plain clone would share them)
+    fn twin(&self) -> Self {
+        let mut t = self.clone();
+        t.flushes = Default::default();
+        t.shutdowns = Default::default();
+        t
+    }
     fn gen(rng: &mut Rng) -> Self {
-        Self { inner: Script::gen(rng), pending_every: rng.range(2, 5), polls: 0, seek_to: None, data_len: 100 }
+        Self {
+            inner: Script::gen(rng),
+            pending_every: rng.range(2, 5),
+            polls: 0,
+            seek_to: None,
+            data_len: 100,
+            flushes: Default::default(),
+            shutdowns: Default::default(),
+            flush_err: rng.chance(1, 4),
+            shutdown_err: rng.chance(1, 3),
+        }
     }
     fn pending(&mut self) -> bool {
         self.polls += 1;
@@ -543,11 +565,19 @@ impl AsyncWrite for AScript {
         }
         Poll::Ready(self.inner.write(buf))
     }
-    fn poll_flush(self: Pin<&mut Self>, _cx: &mut Context<'_>) -> Poll<io::Result<()>> {
-        Poll::Ready(Ok(()))
+    fn poll_flush(mut self: Pin<&mut Self>, _cx: &mut Context<'_>) -> Poll<io::Result<()>> {
+        if self.pending() {
+            return Poll::Pending;
+        }
+        self.flushes.fetch_add(1, std::sync::atomic::Ordering::SeqCst);
+        Poll::Ready(if self.flush_err { Err(io::Error::new(io::ErrorKind::Other, "flush failed")) } else { Ok(()) })
     }
-    fn poll_shutdown(self: Pin<&mut Self>, _cx: &mut Context<'_>) -> Poll<io::Result<()>> {
-        Poll::Ready(Ok(()))
+    fn poll_shutdown(mut self: Pin<&mut Self>, _cx: &mut Context<'_>) -> Poll<io::Result<()>> {
+        if self.pending() {
+            return Poll::Pending;
+        }
+        self.shutdowns.fetch_add(1, std::sync::atomic::Ordering::SeqCst);
+        Poll::Ready(if self.shutdown_err { Err(io::Error::new(io::ErrorKind::BrokenPipe, "shutdown failed")) } else { Ok(()) })
     }
 }
 
@@ -672,8 +702,43 @@ fn case_async(rng: &mut Rng, replay: &str) -> (Verdict, u64) {
             }
         }
         2 => {
-            let mut wrapped = pb.wrap_async_write(script.clone());
+            let inner = script.twin();
+            let (wf, ws) = (inner.flushes.clone(), inner.shutdowns.clone());
+            let mut wrapped = pb.wrap_async_write(inner);
             for _ in 0..rng.range(1, 30) {
+                // now and then the caller flushes, and at the very end it shuts the writer down: both must
+                // reach the inner writer as what they are, with their own results
+                let ctl = rng.below(12);
+                if ctl < 2 {
+                    let before = pb.position();
+                    let (ra, rb) = if ctl == 0 {
+                        (Pin::new(&mut bare).poll_flush(&mut cx), Pin::new(&mut wrapped).poll_flush(&mut cx))
+                    } else {
+                        (Pin::new(&mut bare).poll_shutdown(&mut cx), Pin::new(&mut wrapped).poll_shutdown(&mut cx))
+                    };
+                    calls += 1;
+                    log.push(format!("{} -> {}", if ctl == 0 { "poll_flush" } else { "poll_shutdown" }, poll_sig(&rb)));
+                    if poll_sig(&ra) != poll_sig(&rb) {
+                        differs!(poll_sig(&ra), poll_sig(&rb));
+                    }
+                    use std::sync::atomic::Ordering::SeqCst;
+                    if (wf.load(SeqCst), ws.load(SeqCst)) != (bare.flushes.load(SeqCst), bare.shutdowns.load(SeqCst)) {
+                        return (
+                            viol(
+                                "result-differs-from-bare-source",
+                                name,
+                                format!("call {calls}: the wrapped writer has seen (flushes, shutdowns) = ({}, {}), the bare twin ({}, {})", wf.load(SeqCst), ws.load(SeqCst), bare.flushes.load(SeqCst), bare.shutdowns.load(SeqCst)),
+                                w(&log),
+                                replay.into(),
+                            ),
+                            calls,
+                        );
+                    }
+                    if pb.position() != before {
+                        return (viol("position-not-bytes-transferred", name, format!("call {calls}: a flush/shutdown moved the position by {}", pb.position() - before), w(&log), replay.into()), calls);
+                    }
+                    continue;
+                }
                 let before = pb.position();
                 let data: Vec<u8> = (0..rng.range(0, 50)).map(|i| i as u8).collect();
                 let ra = Pin::new(&mut bare).poll_write(&mut cx, &data);
@@ -1017,7 +1082,7 @@ fn main() {
         let n = if thorough { 3_000_000 } else { 60_000 };
         run_parallel(n, workers(), |i| run_case(seed, i))
     };
-    let rule = "families in rotation: Read (read/read_vectored/read_exact/read_to_end on a scripted source with short reads, Interrupted, hard errors, zero-length transfers, EOF), BufRead (fill_buf / partial consume / read_line / read interleaved), Write (write/write_vectored/write_all/flush on a scripted sink), Seek (all three modes, rewind, stream_position on a Cursor that may start in the middle, with the bar occasionally moved from outside), Iterator (next/next_back/len/size_hint, every ProgressFinish, optionally a second pass over the reset bar), tokio AsyncRead/AsyncBufRead/AsyncWrite/AsyncSeek and futures Stream polled by hand with scripted Pending, rayon pipelines (for_each, map-collect, zip, enumerate, rev, chunks, with_min_len, with_max_len, unindexed filter) on pools of 1-16 threads with 0-20000 items, and short-circuiting consumers (find_any/first/last, any, all, position_any, try_for_each, while_some, take_any, try_reduce; indexed and unindexed source; position compared with an upstream counting stage); every call is mirrored on a bare twin; distinct = (seed, index)";
+    let rule = "families in rotation: Read (read/read_vectored/read_exact/read_to_end on a scripted source with short reads, Interrupted, hard errors, zero-length transfers, EOF), BufRead (fill_buf / partial consume / read_line / read interleaved), Write (write/write_vectored/write_all/flush on a scripted sink), Seek (all three modes, rewind, stream_position on a Cursor that may start in the middle, with the bar occasionally moved from outside), Iterator (next/next_back/len/size_hint, every ProgressFinish, optionally a second pass over the reset bar), tokio AsyncRead/AsyncBufRead/AsyncWrite (write, flush and shutdown with distinct scripted outcomes, counted on the inner writer)/AsyncSeek and futures Stream polled by hand with scripted Pending, rayon pipelines (for_each, map-collect, zip, enumerate, rev, chunks, with_min_len, with_max_len, unindexed filter) on pools of 1-16 threads with 0-20000 items, and short-circuiting consumers (find_any/first/last, any, all, position_any, try_for_each, while_some, take_any, try_reduce; indexed and unindexed source; position compared with an upstream counting stage); every call is mirrored on a bare twin; distinct = (seed, index)";
     let mut j = report.to_json("C17", rule, false);
     j.set("wall_s", t0.elapsed().as_secs_f64());
     j.set("seed", seed);
